@@ -4,13 +4,16 @@ from vlib import *
 import pgenlib
 
 ID = "C10"
-COQ_FILES = ["Common/Corr.v", "Model/Relink.v", "Proofs/Relink.v", "Model/JsonNames.v", "Proofs/JsonNames.v", "Props/C10.v"]
+COQ_FILES = ["Common/Corr.v", "Model/Relink.v", "Proofs/Relink.v", "Model/JsonNames.v", "Proofs/JsonNames.v",
+             "Model/MapRelink.v", "Proofs/MapRelink.v", "Props/C10.v"]
 PROPS = "Props/C10.v"
 THEOREMS = ["C10_resolve_absolute_idempotent", "C10_link_absolute_unchanged", "C10_link_idempotent", "C10_linked_refs_absolute",
-            "C10_relink_json_errors_subset", "C10_relink_json_no_new_errors"]
+            "C10_relink_json_errors_subset", "C10_relink_json_no_new_errors",
+            "C10_relink_map_fields_partial", "C10_relink_map_fields_refuted", "C10_relink_map_fields_repaired"]
 AXIOMS_OK = []
 TRUSTED = ["hand-written Gallina model Model/Relink.v of linker/resolve.go (resolve, resolveElement, resolveInFile order, resolveElementInFile, resolveElementRelative, fileScope, messageScope, and the rewriting of type_name / extendee / input_type / output_type) over a flattened file: visible symbols + references with their scopes",
            "hand-written Gallina model Model/JsonNames.v of linker/validate.go validateFieldJSONNames / hasCustomJSONName with and without the AST (a collecting reporter), validated on every run against the JSON-name warnings and errors the real source compilation and the real re-link report per file",
+           "hand-written Gallina model Model/MapRelink.v of the no-AST branch of linker/resolve.go resolveFieldTypes for references to map-entry messages (isValidMap and the scan of the earlier fields), validated on every run against the number of map-entry errors the real re-link reports per file; internal.MapEntry is read, not re-implemented",
            "correspondence harness harness/cmd/relink (public API only; internal.JSONName is read, not re-implemented) and the program generators checks/pgenlib.py and gen_warned in checks/C10.py"]
 ASSUMPTIONS = ["the theorems are about the reference-rewriting part of linking and about the JSON-name validation of message fields on the second pass; that every other part of the second compilation (symbol registration, option interpretation of already-interpreted options, validation, descriptor.proto handling) is the identity on a compiled proto is established by the direct oracle only (byte-identical deterministic marshal on every generated program and every compilable file of the repository's testdata), not proved",
                "for imported google/protobuf/*.proto files only messages and enums are put into the visible-symbol table of the correspondence (their fields are never the first component of a type reference)",
@@ -232,6 +235,8 @@ def gen_warned(rng, want=None):
 # re-link on the unchanged tree (genuine defect: corpus/C10/map-entry-twin-*.proto, repair fixes/C10-map-entry-twin.diff).
 # The stratum is generated only with VERIF_C10_MAP_TWINS=1 (default off).
 MAP_TWINS = os.environ.get("VERIF_C10_MAP_TWINS", "0") == "1"
+# the tree under test has fixes/C10-map-entry-twin.diff applied: the correspondence uses the model of the repaired scan
+MAP_REPAIRED = os.environ.get("VERIF_C10_REPAIRED", "0") == "1"
 NAME_SHAPES = ["attrs%d", "foo_bar%d", "fooBar%d", "foo__bar%d", "_foo%d", "foo%d_", "foo1_2x%d", "FOO_BAR%d", "Foo%d", "a%d", "x_Y_z%d",
                "foo_Bar%d", "f%d_b_c", "__x%d", "X%dEntry", "entry%d"]
 TWIN_SHAPES = [("Foo_bar%d", "foo_bar%d"), ("foo_Bar%d", "foo_bar%d"), ("foo_bar%d", "fooBar%d"), ("Ab%d", "ab%d"), ("a_b%d", "a__b%d")]
@@ -480,6 +485,24 @@ SYNTH_FLOORS = {
 }
 
 
+def twin_predicted(o):
+    """Mirror of Model/MapRelink.relink_errors on the harness dump: does the code as it is reject a map field of this
+    program because an EARLIER repeated field of the message has a name with the same map-entry name?"""
+    for d in o.get("mcorr") or []:
+        for m in d["msgs"]:
+            fs = m["fields"]
+            for i, f in enumerate(fs):
+                if f[3] and f[2] and f[3] == f[1] and any(g[2] and g[1] == f[3] for g in fs[:i]):
+                    return True
+    return False
+
+
+def c_mfile(d):
+    msgs = "; ".join("[%s]" % "; ".join("mkmf %s %s %s %s" % (c_str(f[0]), c_str(f[1]), coq_bool(f[2]), "(Some %s)" % c_str(f[3]) if f[3] else "None")
+                                        for f in m["fields"]) for m in d["msgs"])
+    return "MFile [%s] %d" % (msgs, d["rl_err"])
+
+
 def c_jfile(d):
     msgs = "; ".join("(%s, [%s])" % (coq_bool(m["compliant"]), "; ".join("mkjf %s %s %s %s" % (c_str(f[0]), c_str(f[1]), c_str(f[2]), coq_bool(f[3])) for f in m["fields"]))
                      for m in d["msgs"])
@@ -558,6 +581,7 @@ def run(ctx):
     outs = ctx.impl("relink", [{k: c[k] for k in c if k != "origin"} for c in cases], shards=NCPU)
     terms, meta = [], []
     jterms = {}
+    mterms = {}
     stats = {"accepted": 0, "rejected": 0, "testdata_accepted": 0, "testdata_rejected": 0, "refs": 0, "relative_refs": 0,
              "bytewise_equal_after_reserialising": 0, "corr_skipped": 0}
     for c, o in zip(cases, outs):
@@ -599,7 +623,10 @@ def run(ctx):
             if variant not in o:
                 continue
             v = o[variant]
-            if "err" in v:
+            if "err" in v and "synthetic map entry" in v["err"] and twin_predicted(o):
+                ctx.violation("relink-fails-map-entry-twin", "compiling again from %s fails because an earlier repeated field has a name with the same map-entry "
+                              "name as a map field: %s" % (what, v["err"]), dict(rep, variant=variant, error=v["err"], errors=v.get("errors")))
+            elif "err" in v:
                 ctx.violation("relink-fails:" + variant, "compiling again from %s fails: %s" % (what, v["err"]),
                               dict(rep, variant=variant, error=v["err"], errors=v.get("errors")))
             elif v["diff"]:
@@ -631,6 +658,10 @@ def run(ctx):
             stats["relative_refs"] += sum(1 for r in refs if not r["before"].startswith("."))
             terms.append(t)
             meta.append(dict(rep, file=d["name"], refs=refs[:40]))
+        for d in o.get("mcorr") or []:
+            mt = c_mfile(d)
+            if mt not in mterms:
+                mterms[mt] = dict(rep, file=d["name"], map_facts=d)
         for d in o.get("jcorr") or []:
             jt = c_jfile(d)
             if jt not in jterms:
@@ -676,3 +707,15 @@ def run(ctx):
         raise RuntimeError(err)
     for k in jm:
         ctx.corr_break("relink:json-names", jterms[jlist[k]], {"file": jterms[jlist[k]]["file"], "term": jlist[k][:600]})
+    # ---- references to map entries on the no-AST path against Model/MapRelink.v
+    mlist = list(mterms)
+    ctx.extra["map_terms"] = len(mlist)
+    for mt in mlist:
+        ctx.count(("map", mt), True, "map-fields-file")
+    mheader = ("From Coq Require Import List Bool String.\nImport ListNotations.\n"
+               "From PV Require Import Common.Corr Model.MapRelink.\nOpen Scope string_scope.\nOpen Scope list_scope.\n")
+    mm, err = coq_eval_mismatches("cases_C10m", mheader, mlist, "map_chk_repaired" if MAP_REPAIRED else "map_chk", shard_size=ctx.budget(60, 150))
+    if err:
+        raise RuntimeError(err)
+    for k in mm:
+        ctx.corr_break("relink:map-entry-ref", mterms[mlist[k]], {"file": mterms[mlist[k]]["file"], "term": mlist[k][:600]})
